@@ -569,6 +569,22 @@ def main():
     ck.eq([goconst("control.connectivity.go:outboundConnectivityDomain" + d) for d in ("TCP", "DnsUDP", "DataUDP")], [0, 1, 2],
           "health domain indices (tproxy.c: 0=TCP, 1=DNS UDP, 2=data UDP)")
 
+    # 3b. enum tcp_state: the Go janitor mirrors it with bare literals (`value.State == 1`
+    # selects the closing timeout; everything else counts as established, and UDP entries
+    # and fresh entries are zero)
+    sites = [x for x in G.get("state_literals", []) if re.search(r"conn.?state", x["func"], re.I)]
+    ck.ev()
+    if not sites:
+        ck.notes.append("no `.State <op> literal` comparison found in the Go conn-state janitor (enum tcp_state not cross-checked)")
+    for x in sites:
+        ck.eq(int(x["value"], 0), cconst("TCP_STATE_CLOSING"),
+              "control/%s:%d (%s): conn_state State %s %s is the Go side's 'closing' test vs C TCP_STATE_CLOSING" % (x["file"], x["line"], x["func"], x["op"], x["value"]))
+        ck.cls("go_literal_mirrors_of_c_enum")
+    if sites:
+        ck.eq(cconst("TCP_STATE_ACTIVE"), 0, "TCP_STATE_ACTIVE (Go treats every State other than the closing literal, incl. zero-initialised and UDP entries, as established)")
+        tcp_states = sorted(n for n in C["consts"] if n.startswith("TCP_STATE_"))
+        ck.eq(tcp_states, ["TCP_STATE_ACTIVE", "TCP_STATE_CLOSING"], "enumerators of enum tcp_state known to the Go janitor")
+
     # 4. maps: key/value sizes vs the Go types used with them; tags
     cmaps = {m["name"] for m in C["maps"]}
 
